@@ -37,7 +37,7 @@ type c18Call struct {
 
 func TestC18(t *testing.T) {
 	r, e := start(t, "C18",
-		"programs calling probe executables: argument lists of 0-5 strings over the C08 classes (empty, blanks, glob, ~, {a,b}, ; & | > < # - quotes, parentheses, !, =, tab, embedded newline, $, $(cmd), backquote, double quote, backslash), each given as literal, variable, concatenation, function result or run-time input; pipelines of 1-3 probes; exit statuses 0-255; calls as statements (output must reach stdout) and as o, e, c := / var o, e, c = / o, e, c = captures (output must not reach stdout); program names as identifiers (found on PATH) and as interpreted/raw string literal paths. Oracle: each probe's argv log equals the intended argument list exactly; stdout composition proves the pipe order; captured output and status are exact; no stray file appears. Non-trivial = two or more arguments of different non-neutral classes, or a pipeline of >= 2 with a non-zero status; distinct by program + stdin.",
+		"programs calling probe executables: argument lists of 0-5 strings over the C08 classes (empty, blanks, glob, ~, {a,b}, ; & | > < # - quotes, parentheses, !, =, tab, embedded newline, $, $(cmd), backquote, double quote, backslash), each given as literal, variable, concatenation, function result or run-time input; pipelines of 1-3 probes; exit statuses 0-255; calls as statements (output must reach stdout) and as o, e, c := / var o, e, c = / o, e, c = captures (output must not reach stdout); program names as identifiers (found on PATH) and as interpreted/raw string literal paths, also paths containing a blank, '*', ';' or a leading dash in a directory name. Oracle: each probe's argv log equals the intended argument list exactly; stdout composition proves the pipe order; captured output and status are exact; no stray file appears. Non-trivial = two or more arguments of different non-neutral classes, or a pipeline of >= 2 with a non-zero status; distinct by program + stdin.",
 		[]string{"arguments containing $, backquote, double quote or backslash are supplied through input() or variables read at run time (as source literals they fall under the listed C08 finding)", "probe output never ends in an empty line (capture removes trailing newlines by definition)", "Bash target only"})
 	defer r.Flush()
 	_ = e
@@ -124,11 +124,20 @@ func TestC18(t *testing.T) {
 				}
 				expLogs[name+".log"] = log
 				callName := name
-				switch gen.Uniform(0, 3).Draw(t, "name-form") {
+				switch gen.Uniform(0, 5).Draw(t, "name-form") {
 				case 2:
 					callName = "\"./bin/" + name + "\""
 				case 3:
 					callName = "`bin/" + name + "`"
+				case 4:
+					// a path with a blank and a glob character in a directory name (the same probe under another path)
+					exec["my dir/b*n/"+name] = probeScript(name, status)
+					callName = "\"./my dir/b*n/" + name + "\""
+					r.Class("program-path-with-blank")
+				case 5:
+					exec["-odd;dir/"+name] = probeScript(name, status)
+					callName = "`./-odd;dir/" + name + "`"
+					r.Class("program-path-with-blank")
 				}
 				calls = append(calls, "@"+callName+"("+strings.Join(args, ", ")+")")
 				for i := range stream {
